@@ -80,6 +80,19 @@ def run_fa(case):
                     raise Fail("stale_answer_%s" % it.kind, "step %d: %s_accepts_word(%r) = %r on an object that was %s, but its current content %s the word; history: %s" %
                                (k, it.kind, w, got, "reused" if nqueries else "fresh", "accepts" if want else "rejects", [s["op"] + ":" + str(s.get("what", "")) for s in case["steps"][:k + 1]]))
                 nqueries += 1
+        elif op == "enumerate":
+            from gambatools.language_generator import generate_language
+            n = step["n"]
+            S = sorted(it.spec["S"])
+            want = {w for w in G.all_words(S, n) if fa.nfa_accepts(it.spec, w)}
+            fns = [("generate_language", generate_language), ("%s_words_up_to_n" % it.kind, DA.dfa_words_up_to_n if it.kind == "dfa" else NA.nfa_words_up_to_n)]
+            for name, fn in fns:
+                got = lib(fn, it.obj, n)
+                if got != want:
+                    raise Fail("stale_enumeration_%s" % it.kind, "step %d: %s(n=%d) on an object with a history gives extra %r, missing %r w.r.t. the current content; history: %s" %
+                               (k, name, n, sorted(set(got) - want, key=len)[:3], sorted(want - set(got), key=len)[:3], [s["op"] + ":" + str(s.get("what", "")) for s in case["steps"][:k + 1]]))
+            nqueries += 1
+            cls.add("enumerate")
         elif op == "to_regexp" and it.kind == "dfa" and len(it.spec["Q"]) <= 4:
             from ref import regex as RX
             from bridge import regex as BR
@@ -214,7 +227,9 @@ def fa_programs(draw, tier, focus="accept"):
                 steps.append({"op": "mutate", "i": 0, "what": "add_transition", "a": draw(st.integers(0, 5)), "b": draw(st.integers(0, 5)),
                               "c": len(sigma) if draw(st.booleans()) else draw(st.integers(0, 3))})      # index len(sigma) is the eps label
                 continue
-        if k <= 3:
+        if focus == "enumerate" and k <= 4:
+            steps.append({"op": "enumerate", "i": i, "n": draw(st.sampled_from([2, 3, 2, 1, 0]))})
+        elif k <= 3:
             steps.append({"op": "query", "i": i, "words": draw(words)})
         elif focus == "regexp" and k <= 5:
             steps.append({"op": "to_regexp", "i": i})
@@ -229,6 +244,8 @@ def fa_programs(draw, tier, focus="accept"):
         else:
             steps.append({"op": "new", "spec": draw(G.dfa_specs(max_states=3, sigma=sigma))})
     steps.append({"op": "query", "i": draw(st.integers(0, 5)), "words": draw(words)})
+    if focus == "enumerate":
+        steps.append({"op": "enumerate", "i": draw(st.integers(0, 5)), "n": draw(st.sampled_from([2, 3]))})
     if focus == "regexp":
         steps.append({"op": "to_regexp", "i": draw(st.integers(0, 5))})
     if focus == "iso":
